@@ -442,6 +442,34 @@ func (c *Ctx) Floor(rule string, n int) {
 	}
 }
 
+// importRules runs another property's rule set in a scratch context and adopts the obligations of the named rules
+// under this property's prefix (from "C12.copy" to "<prop>.<as>"): used where one structural condition is a
+// necessary condition of two properties.
+func (c *Ctx) importRules(run func(*Ctx), fromProp string, rules map[string]string) {
+	sub := NewCtx(c.Prog, fromProp, c.Tier)
+	run(sub)
+	for _, o := range sub.Obls {
+		for from, as := range rules {
+			if o.Rule != fromProp+"."+from {
+				continue
+			}
+			to := c.Prop + "." + as
+			c.Rules[to] = sub.Rules[o.Rule]
+			n := *o
+			n.Rule = to
+			if old, ok := c.seen[n.Key()]; ok {
+				_ = old
+				continue
+			}
+			c.seen[n.Key()] = &n
+			c.Obls = append(c.Obls, &n)
+		}
+	}
+	for f := range sub.Funcs {
+		c.Funcs[f] = true
+	}
+}
+
 func (c *Ctx) Note(format string, a ...interface{}) {
 	c.Notes = append(c.Notes, fmt.Sprintf(format, a...))
 }
